@@ -7,7 +7,7 @@ s = open(p).read()
 rows, stats = [], {}
 for d in sorted(glob.glob(os.path.join(HERE, 'seeded', '*', 'meta.json'))):
     m = json.load(open(d))
-    rnd = {'A': 1, 'B': 1, 'C': 2, 'D': 2, 'E': 3, 'F': 3, 'G': 4, 'H': 4, 'I': 5, 'J': 5, 'K': 6, 'L': 6, 'M': 7, 'N': 7}[m['id'][-1]]
+    rnd = {'A': 1, 'B': 1, 'C': 2, 'D': 2, 'E': 3, 'F': 3, 'G': 4, 'H': 4, 'I': 5, 'J': 5, 'K': 6, 'L': 6, 'M': 7, 'N': 7, 'P': 8, 'Q': 8}[m['id'][-1]]
     st = stats.setdefault(rnd, [0, 0, 0])
     det = m['detection']
     if det.startswith('MISSED'):
